@@ -5,6 +5,7 @@ R18.1  chunk-obliviousness: line-oriented decoders touch `response` only through
 R18.2  accumulator typestate of iter_sse: pending lines are parsed+yielded before every exit, the
        accumulator is reset after a dispatch, parsed events are yielded
 R18.3  _parse_sse_event: comment test dominates field dispatch, data kept in order and joined with "\n"
+R18.5  a value whose truthiness guards a yield is an instance of a class without __bool__/__len__ (an empty event is still delivered)
 R18.4  iter_ndjson: one yield per non-empty line, nothing carried between lines
 """
 from __future__ import annotations
@@ -48,6 +49,7 @@ def run(repo: Repo, rep: Report, tier: str) -> None:
     for need in ("iter_sse", "iter_ndjson", "iter_sse_events_text", "iter_bytes"):
         rep.require(need in decoders, f"R18.1: decoder {need} vanished from streaming_helpers")
     decoder_names = set(decoders)
+    rule_truth_tested_instances(repo, rep, "R18.5")
 
     # ---------------------------------------------------------------- R18.1
     for q, fn in sorted(decoders.items()):
@@ -478,3 +480,62 @@ def _parse_event_rules(fn: Function, rep: Report) -> None:
                                   f"the data value is transformed by {sorted(transforms)} before it is stored", fn.loc(c))
                 else:
                     rep.ok("R18.3", sub0 + " data value unchanged", "value is the text after the first colon (leading whitespace stripped only)", fn.loc(c))
+
+
+# ------------------------------------------------------------------------------------------------ R18.5 truth-tested values
+def rule_truth_tested_instances(repo: Repo, rep, rule: str = "R18.5") -> None:
+    """A decoder that guards a yield with the truthiness of a parsed value (`if event: yield event`) delivers every event only as long
+    as instances of that value's class are always true: the class must define neither `__bool__` nor `__len__` (an event without data
+    is still an event)."""
+    mod = repo.module(MOD)
+    classes = {c.name: c for c in mod.classes.values()}
+
+    def returned_class(fn) -> Optional[str]:
+        ann = getattr(fn.node, "returns", None)
+        if ann is not None:
+            for x in ast.walk(ann):
+                if isinstance(x, ast.Name) and x.id in classes:
+                    return x.id
+                if isinstance(x, ast.Constant) and isinstance(x.value, str) and x.value in classes:
+                    return x.value
+        for r in own_nodes(fn.node):
+            if isinstance(r, ast.Return) and isinstance(r.value, ast.Call) and isinstance(r.value.func, ast.Name) and r.value.func.id in classes:
+                return r.value.func.id
+        return None
+
+    n = 0
+    for q, fn in sorted(mod.functions.items()):
+        L = Locals(fn.node)
+        tested: List[Tuple[str, ast.AST]] = []
+        for t in own_nodes(fn.node):
+            tests: List[ast.AST] = []
+            if isinstance(t, (ast.If, ast.While, ast.IfExp)):
+                tests = [t.test]
+            for te in tests:
+                for x in ([te] + (list(te.values) if isinstance(te, ast.BoolOp) else [])):
+                    while isinstance(x, ast.UnaryOp) and isinstance(x.op, ast.Not):
+                        x = x.operand
+                    if isinstance(x, ast.Name):
+                        tested.append((x.id, t))
+        for name, t in tested:
+            cls_name = None
+            for k, v, _ in L.defs.get(name, []):
+                if isinstance(v, ast.Call):
+                    callee = v.func.id if isinstance(v.func, ast.Name) else None
+                    if callee in classes:
+                        cls_name = callee
+                    elif callee in mod.functions:
+                        cls_name = returned_class(mod.functions[callee])
+            if cls_name is None:
+                continue
+            n += 1
+            c = classes[cls_name]
+            dunders = [m for m in ("__bool__", "__len__") if m in c.methods]
+            sub = f"{mod.relpath}:{q} truth test of `{name}` ({cls_name})"
+            if dunders:
+                rep.violation(rule, sub, f"{mod.name}:{q}|truthiness-of|{cls_name}|{','.join(dunders)}",
+                              f"`{norm(t.test)[:50]}` decides whether a parsed {cls_name} is delivered, and {cls_name} defines {dunders}: an event whose data is empty "
+                              "(heartbeat, `id:`-only block, empty `data:`) is now false and silently dropped", fn.loc(t))
+            else:
+                rep.ok(rule, sub, f"{cls_name} defines neither __bool__ nor __len__: every parsed instance is true, so the guard never drops an event", fn.loc(t))
+    rep.count(f"{rule}:truth_tested_instances", n)
